@@ -155,6 +155,8 @@ def parse_state(tok):
 
 def oracle(mode, ops, out_line):
     """dict semantics on the implementation's own answers.  Returns None or a description."""
+    if out_line == "SKIPPED":
+        return None
     if out_line in ("TIMEOUT",) or out_line.startswith("CRASH"):
         return "implementation %s (a probing loop that never terminates / a crash)" % out_line
     toks = out_line.split(" ")
@@ -220,7 +222,7 @@ def shrink(impl, mode, init, ops):
         i = 0
         while i < len(cur) and len(cur) > 1:
             cand = cur[:i] + cur[i + 1:]
-            o = run_lines_robust(impl, [line_of(mode, init, cand)], timeout=10, per_line_timeout=5)
+            o = run_lines_robust(impl, [line_of(mode, init, cand)], timeout=3, per_line_timeout=2)
             if oracle(mode, cand, o[0]) is not None:
                 cur = cand
                 changed = True
@@ -249,7 +251,7 @@ def main(argv):
     c.sample({"history": lines[len(lines) // 2][:400]})
     c.sample({"history": lines[-1]})
 
-    impl_out = run_lines_robust(impl, size_lines + lines, timeout=240)
+    impl_out = run_lines_robust(impl, size_lines + lines, timeout=120, per_line_timeout=5)
     # --- correspondence
     if drv is None:
         c.broken.append("extraction/driver build failed: " + dlog[-600:])
@@ -258,7 +260,7 @@ def main(argv):
         if len(model_out) != len(impl_out):
             c.broken.append("C13 driver produced %d lines for %d cases: %s" % (len(model_out), len(impl_out), err[-300:]))
         else:
-            dis = [(l, a, b) for l, a, b in zip(size_lines + lines, model_out, impl_out) if a != b]
+            dis = [(l, a, b) for l, a, b in zip(size_lines + lines, model_out, impl_out) if a != b and b != "SKIPPED"]
             c.cov["traces_validated_against_impl"] += sum(len(ops) for (_, _, _, ops) in cases)
             fuel = [l for l, a, b in zip(size_lines + lines, model_out, impl_out) if "ERR" in a and not any(t in ("L0", ) or t.startswith("F0,") for t in l.split(" "))]
             if fuel:
@@ -296,9 +298,13 @@ def main(argv):
         big.append("T %s %d %d %d %d" % (ent, seed, nkeys, 22, c.rng.choice([0, 2, 5])))
     # one giant cluster (all keys share the low bits of every table size): quadratic, so kept small
     big.append("T 16 %d %d %d %d" % (c.rng.randrange(1, 2 ** 62), 4000 if c.tier == "quick" else 20000, 22, 24))
-    big_out = run_lines_robust(impl, big, timeout=600, per_line_timeout=300)
+    if c.violations:
+        big = []          # a failing input is already in hand; the large runs could only hang on the same defect
+    big_out = run_lines_robust(impl, big, timeout=300 if c.tier == "quick" else 900, per_line_timeout=120, max_failures=1)
     for l, o in zip(big, big_out):
         c.count(l, bucket="large/std::map-reference %s ops" % l.split()[3])
+        if o == "SKIPPED":
+            continue
         if not o.startswith("OK"):
             c.violation("set-semantics-large: " + o[:300], {"harness_line": l, "impl_output": o[:500],
                                                             "how": "echo '<harness_line>' | hx_probing  (T <entry bytes> <seed> <ops> <universe bits> <stride bits>)"})
